@@ -169,10 +169,20 @@ def h_sleep(source):
         # the client's interval parameters are the configured / overriding ones (bit-vector obligation) ...
         ctx.prove(deep_eq(cl.sleeptime, s), "client sleeptime is the configured one")
         ctx.prove(deep_eq(cl.jitter, j), "client jitter is the configured one")
-        s, j = cl.sleeptime, cl.jitter  # ... and the band is stated over those very terms (real-arithmetic obligation)
+        # ... and the band is decided for every integer-valued (sleeptime, jitter) in range as pure real arithmetic: the two attributes
+        # are replaced by arithmetic variables tied to nothing but their ranges (get_sleep_time reads only these and random)
+        if not is_native():
+            S, J = z3.Int("S"), z3.Int("J")
+            ctx.add_c(S >= 0, S <= (1 << 32) - 1, J >= 0, J <= 100)
+            ctx.inputs["S"], ctx.inputs["J"] = S, J
+            cl.sleeptime, cl.jitter = SymReal(z3.ToReal(S)), SymReal(z3.ToReal(J))
+        else:
+            cl.sleeptime, cl.jitter = ctx.values.get("S", 0), ctx.values.get("J", 0)
+        s, j = cl.sleeptime, cl.jitter
         for k in range(2):
             t = call(I.getattr(cl, "get_sleep_time"))
             if is_native():
+                ctx.inputs["S"], ctx.inputs["J"] = s, j
                 lo = Fraction(s) - Fraction(s * j, 100)
                 tol = Fraction(max(s, 1), 10 ** 9)  # IEEE-754 rounding of the real code is outside the claim
                 ctx.prove(lo - tol <= Fraction(t) <= Fraction(s) + tol, "sleep interval within the jitter band (draw %d)" % k)
